@@ -312,13 +312,13 @@ def segPrefix : Nat → Option Byte
 def sextNat (v bitsN : Nat) : Int := if v ≥ 2 ^ (bitsN - 1) then (v : Int) - (2 ^ bitsN : Nat) else v
 
 /-- EVEX disp8*N, SDM vol. 2 table 2-34 / 2-35 ("Compressed Displacement (DISP8*N)") -/
-def disp8N (r : Rule) (p : Parsed) : Nat :=
-  let vl := match p.L with | 0 => 16 | 1 => 32 | _ => 64
-  let w := if p.W then 8 else 4
+def disp8Nf (r : Rule) (L : Nat) (W b : Bool) : Nat :=
+  let vl := match L with | 0 => 16 | 1 => 32 | _ => 64
+  let w := if W then 8 else 4
   let e := if r.elem != 0 then r.elem else w
   match r.tuple with
-  | 1 => if p.b then e else vl               -- full vector
-  | 2 => if p.b then e else vl / 2           -- half vector
+  | 1 => if b then e else vl               -- full vector
+  | 2 => if b then e else vl / 2           -- half vector
   | 3 => vl                                   -- full vector mem
   | 4 => e                                    -- tuple1 scalar
   | 5 => e                                    -- tuple1 fixed
@@ -330,9 +330,11 @@ def disp8N (r : Rule) (p : Parsed) : Nat :=
   | 11 => vl / 8                              -- eighth mem
   | 12 => 16                                  -- mem128
   | 13 => if vl == 16 then 8 else vl          -- movddup
-  | 14 => if p.b then e else vl / 4           -- quarter vector
+  | 14 => if b then e else vl / 4           -- quarter vector
   | 15 => w                                   -- tuple1 by W
   | _ => 1
+
+def disp8N (r : Rule) (p : Parsed) : Nat := disp8Nf r p.L p.W p.b
 
 structure Ctx where
   mode64 : Bool
